@@ -292,7 +292,7 @@ func C13(r *ev.Run) {
 	}
 	self, _ := os.Executable()
 	for _, w := range []int{2, 8, 16} {
-		out, code, err := runChild(self, w, pick(tier, 600, 6000))
+		out, code, err := runChild(self, w, pick(tier, 600, 40000))
 		if err != nil {
 			r.Inconclusive("cannot run child: " + err.Error())
 			return
@@ -330,7 +330,7 @@ func C13(r *ev.Run) {
 		r.Inconclusive("cannot build the -race harness: " + headStr(string(b), 400))
 		return
 	}
-	out, _, err := runChild(raceBin, 8, pick(tier, 300, 3000))
+	out, _, err := runChild(raceBin, 8, pick(tier, 300, 15000))
 	if err != nil {
 		r.Inconclusive("cannot run race child: " + err.Error())
 		return
